@@ -47,6 +47,57 @@ def timer_units(world):
                         ["C13", "C12"], setup, call, ens, prop_map={"safety": ["C13"], "frame": ["C12"]})
     out.append(mk(True))
     out.append(mk(False))
+
+    def mk_any_state():
+        """the same contract for a check made in ANY state of the closure: every variable the closure keeps
+        besides the deadline itself (timeout, start_time) is given an arbitrary value of its type before the
+        call -- an over-approximation of the reachable states, so a failure counts only when the virtual-clock
+        replay of the real closure confirms it (a check that is skipped on some calls, a clock read cached
+        between calls)"""
+        def setup(it, w):
+            t = z3.Real("timeout")
+            it.assume(t != 0)
+            return [t, {}]
+
+        def call(it, w, a):
+            clo = it.call(w.func("timers.timeout"), [a[0]], {})
+            n0 = len(it.ghost.get("perf_reads", []))
+            env = getattr(clo, "env", None)
+            kept = {}
+            if env is not None:
+                for name, v in list(env.vars.items()):
+                    if name in ("timeout", "start_time") or v is clo:
+                        continue
+                    if isinstance(v, bool):
+                        env.vars[name] = z3.Bool("state." + name)
+                    elif isinstance(v, int):
+                        env.vars[name] = z3.Int("state." + name)
+                    elif isinstance(v, float) or (z3.is_expr(v) and z3.is_real(v)):
+                        env.vars[name] = z3.Real("state." + name)
+                    else:
+                        continue
+                    kept[name] = env.vars[name]
+            a[1]["state"] = kept
+            raised = False
+            try:
+                r = it.call(clo, [], {})
+            except PyRaise as e:
+                if e.cls != "CTParseTimeoutError":
+                    raise
+                raised, r = True, None
+            return (raised, r, n0, list(it.ghost.get("perf_reads", [])))
+
+        def ens(it, w, a, res):
+            raised, r, n0, reads = res
+            ok_reads = len(reads) == n0 + 1 and n0 == 1
+            expired = reads[-1] - reads[0] > a[0] if ok_reads else False
+            return [("one-clock-read-per-check-in-any-state", ["C13"], ok_reads),
+                    ("raises-iff-deadline-passed-in-any-state", ["C13"], (expired if raised else Not(expired)) if ok_reads else False)]
+        u = FuncUnit("timers.timeout._tt[any state]", ["timers.timeout"], ["C13"], setup, call, ens,
+                     prop_map={"safety": ["C13"], "frame": ["C12"]}, check_frame=False)
+        u.shape_only_clauses = ("one-clock-read-per-check-in-any-state", "raises-iff-deadline-passed-in-any-state")
+        return u
+    out.append(mk_any_state())
     return out
 
 
